@@ -100,6 +100,11 @@ def prod_Z(n, p, seed, label, extra=False):
     return Z
 
 
+# two prime group orders of other bit lengths (P-192's order and a toy order), used as "earlier" derivations
+DECOY_ORDER_A = 0xFFFFFFFFFFFFFFFFFFFFFFFF99DEF836146BC9B1B4D22831
+DECOY_ORDER_B = 13
+
+
 class Nonce(Driver):
     id = "C01.nonce"
     rule = ("case = (group order n, key d, hash z): deterministic_generate_k(n,d,z) == reference RFC 6979 first nonce; toy orders with ALL d and the "
@@ -134,6 +139,11 @@ class Nonce(Driver):
         from pycoin.ecdsa.rfc6979 import deterministic_generate_k
         n, d, z = int(case["n"]), int(case["d"]), int(case["z"])
         exp = ref.nonce(n, d, z)
+        # the same (d, z) is first used with two OTHER group orders (different bit lengths): a nonce must depend on the
+        # order it is asked for, not on what was derived before (state shared between calls)
+        for other in (DECOY_ORDER_A, DECOY_ORDER_B):
+            if other != n and 1 <= d < other:
+                _try(deterministic_generate_k, other, d, z)
         ok, k = _try(deterministic_generate_k, n, d, z)
         if not ok or k != exp:
             return BAD("nonce", "k = %d" % exp, "k = %s" % (k,), clause="rfc6979-nonce")
@@ -416,6 +426,9 @@ class ProdSign(Driver):
             return BAD("exception", "generators constructed", gens, clause="construct")
         g = gens[cfg]
         calls = 1
+        for other in (DECOY_ORDER_A, DECOY_ORDER_B):
+            if 1 <= d < other:
+                _try(deterministic_generate_k, other, d, z)       # see C01.nonce: earlier derivations must not matter
         ok, k = _try(deterministic_generate_k, n, d, z)
         if not ok or k != sg0["k"]:
             return BAD("nonce", "k = %d" % sg0["k"], repr(k), clause="rfc6979-nonce", config=cfg)
